@@ -5,7 +5,7 @@ import z3
 from pyvc import frontend, contracts, verify, solve, allext
 repo=frontend.Repo(); reg=contracts.Registry(); reg.load_dir('/verif/contracts')
 q, pat = sys.argv[1], sys.argv[2]
-rep=verify.verify_function(repo,reg,q)
+rep=verify.verify_function(repo,reg,q,only_variant=(int(sys.argv[3]) if len(sys.argv)>3 else None))
 obs=[o for o in rep.obligations+verify.lemma_obligations(repo,reg,q) if pat in o.name]
 n=0
 for ob in obs:
